@@ -284,6 +284,19 @@ pub fn gen_prot_with(g: &mut Gen, ctx: &mut Ctx, content: Option<Item>) -> Resul
             }
             ctx.class("protected:from-wire");
             ctx.classf(format!("protected:from-wire:position-{}", ["body", "countersig-in-unprotected", "countersig-in-protected", "countersig-of-countersig", "second-signer", "recipient-of-recipient"][position]));
+            let mut value = value;
+            if g.ratio(1, 8) {
+                // the application edits the parsed view after decoding (public fields): the retained
+                // bytes still are what goes into every structure and every re-encoding
+                match g.below(4) {
+                    0 => value.header.alg = Some(coset::Algorithm::Assigned(coset::iana::Algorithm::ES256)),
+                    1 => value.header.key_id = g.nonempty_bytes(),
+                    2 => value.header.rest.push((coset::Label::Int(70000 + g.range_i64(0, 9)), coset::cbor::value::Value::Null)),
+                    _ => value.header = Header::default(),
+                }
+                ctx.class("protected:from-wire-then-view-edited");
+                return Ok(Prot { value, p: w, built: None, flavour: "wire-then-edited" });
+            }
             Ok(Prot { value, p: w, built: None, flavour: "wire" })
         }
         1 => {
@@ -334,4 +347,63 @@ pub fn gen_prot_with(g: &mut Gen, ctx: &mut Ctx, content: Option<Item>) -> Resul
 /// Whether calling `f` panics (documented refusals).
 pub fn panics<T>(f: impl FnOnce() -> T) -> bool {
     crate::run::catch(f).is_err()
+}
+
+
+/// A built header that has no encoding (its map would carry a label twice, at the top level or
+/// inside a counter-signature's own headers, at nesting 1 or 2), together with the encodable
+/// sibling obtained by removing the offending part.
+pub fn gen_unencodable_header(g: &mut Gen, ctx: &mut Ctx) -> (Header, Header) {
+    use coset::cbor::value::Value;
+    use coset::{CoseSignature, Label};
+    let dup_rest = |g: &mut Gen| -> Vec<(Label, Value)> {
+        let l = if g.bool() { Label::Int(100 + g.range_i64(0, 900)) } else { Label::Text(g.text()) };
+        vec![(l.clone(), Value::from(1)), (l, Value::from(2))]
+    };
+    let mut sibling = Header::default();
+    if g.bool() {
+        sibling.key_id = g.nonempty_bytes();
+    }
+    let mut bad = sibling.clone();
+    let good_sig = CoseSignature { protected: ProtectedHeader::default(), unprotected: Header::default(), signature: vec![1] };
+    match g.below(5) {
+        0 => {
+            ctx.class("unencodable:duplicate-extra");
+            bad.rest = dup_rest(g);
+        }
+        1 => {
+            ctx.class("unencodable:extra-names-populated-typed-label");
+            bad.alg = Some(coset::Algorithm::Assigned(coset::iana::Algorithm::ES256));
+            sibling.alg = bad.alg.clone();
+            bad.rest = vec![(Label::Int(1), Value::from(-7))];
+        }
+        2 => {
+            ctx.class("unencodable:countersig-unprotected-duplicate");
+            let mut cs = good_sig.clone();
+            cs.unprotected.rest = dup_rest(g);
+            if g.bool() {
+                sibling.counter_signatures = vec![good_sig.clone()];
+                bad.counter_signatures = if g.bool() { vec![good_sig.clone(), cs] } else { vec![cs, good_sig.clone()] };
+            } else {
+                bad.counter_signatures = vec![cs];
+            }
+        }
+        3 => {
+            ctx.class("unencodable:countersig-protected-duplicate");
+            let mut cs = good_sig.clone();
+            cs.protected = ProtectedHeader { original_data: None, header: Header { rest: dup_rest(g), ..Default::default() } };
+            sibling.counter_signatures = vec![good_sig.clone()];
+            bad.counter_signatures = vec![good_sig.clone(), cs];
+        }
+        _ => {
+            ctx.class("unencodable:countersig-of-countersig-duplicate");
+            let mut inner = good_sig.clone();
+            inner.unprotected.rest = dup_rest(g);
+            let mut outer = good_sig.clone();
+            outer.unprotected.counter_signatures = vec![inner];
+            sibling.counter_signatures = vec![good_sig.clone()];
+            bad.counter_signatures = vec![good_sig.clone(), outer];
+        }
+    }
+    (bad, sibling)
 }
